@@ -1064,9 +1064,15 @@ def run(ctx: Context) -> None:
     ctx.isolate(r4_r5_copies)
     ctx.isolate(r6_removal_on_finish)
     ctx.isolate(_r7_allocation_invariant)
+    ctx.isolate(_r11_resource_identity)
     ctx.isolate(r9_addition_is_additive)
     from . import c17
     ctx.isolate(c17.cache_coherence, "C04.R10", ("Resources", "Worker", "WorkerPool"), "ledger queries must follow every allocation", 3)
+
+
+def _r11_resource_identity(ctx: Context) -> None:
+    from . import c01
+    c01.r11_resource_identity(ctx, rule="C04.R11")
 
 
 def _r7_allocation_invariant(ctx: Context) -> None:
